@@ -259,6 +259,7 @@ pub fn params_for(rng: &mut Rng, thorough: bool, i: usize) -> TxwParams {
         stagger_ms: 0,
         hc_stall: i % 4 == 1,
         cache: if i % 5 == 3 { 3 } else { 0 },
+        same_app: i % 3 == 0,
     }
 }
 
